@@ -58,7 +58,11 @@ def gen_source(rnd, tag, rich):
 def gen_names(rnd, fields, bad=False):
     ns = rnd.sample(fields, rnd.randint(0, len(fields))) if fields else []
     if bad:
-        ns.insert(rnd.randint(0, len(ns)), rnd.choice(["zz", "nope", "A", "a_"]))
+        # not a field: an unknown name, or a name that IS an attribute of every Structure class (API method,
+        # special attribute, dunder) -- "is it a field" and "does the class have it" are different questions
+        ns.insert(rnd.randint(0, len(ns)), rnd.choice(
+            ["zz", "nope", "A", "a_", "pick", "omit", "cast_to", "shallow_clone_with_overrides", "_required",
+             "__init__", "get_all_fields_by_name", "to_other_class", "__validate__", "_fields", "__dict__"]))
     if ns and rnd.random() < 0.1:
         ns.append(ns[0])                                   # a repeated name
     return ns
